@@ -407,7 +407,7 @@ func c15Docs(c *Ctx, r *rng.R) {
 	var ity cty.Type
 	var err error
 	p, pmsg := recovered(func() { ity, err = ctyjson.ImpliedType(buf) })
-	c.Add("implied", fmt.Sprintf("K15_implied %s %s", doc.Coq(), resTy(ity, err, p)), desc, doc.K >= jv.Arr)
+	c.Add("implied", fmt.Sprintf("K15_implied %s %s %s", normTable(doc), doc.Coq(), resTy(ity, err, p)), desc, doc.K >= jv.Arr)
 	c.Count("oracle_evals")
 	if p {
 		c.Fail("C15/implied-panic", "ImpliedType panicked: "+pmsg, desc)
